@@ -168,6 +168,9 @@ func reinitCases(c *Ctx, w *World, prop string) []HistCase {
 		if pick(o.Before) != pick(o.After) {
 			fail("reinit-changed-other-round", "a message of another round embedded in a reinit_dkg message changed that round", o)
 		}
+		if !strings.Contains(roundProj(o.After, roundOld), "stage_signing_idle") {
+			fail("reinit-incomplete", "a reinit file that contains a message of another round does not bring the round to signing-ready", o)
+		}
 	}})
 	// (a) plain reinit on a fresh node, and (b) the same reinit twice
 	cases = append(cases, HistCase{Kind: "reinit-fresh", User: me, Items: []Item{w.ReinitItem(roundOld, body, nil, "reinit-ok")}})
